@@ -130,6 +130,18 @@ func init() {
 		}
 		return nil, actDone
 	})
+	reg(vrt+"Native", func(r *Run, g *G, a []Value) (Value, action) { return false, actDone })
+	reg(vrt+"Redirect", func(r *Run, g *G, a []Value) (Value, action) {
+		c, ok := a[1].(Iface).v.(*Closure)
+		if !ok || c == nil {
+			engineFail("Redirect: replacement must be a function value")
+		}
+		if r.runRedirects == nil {
+			r.runRedirects = map[string]*Closure{}
+		}
+		r.runRedirects[strArg(a[0])] = c
+		return nil, actDone
+	})
 	reg(vrt+"Thorough", func(r *Run, g *G, a []Value) (Value, action) { return r.eng.opts.Tier == "thorough", actDone })
 	reg(vrt+"SyncPoint", func(r *Run, g *G, a []Value) (Value, action) { return nil, actSync })
 	reg(vrt+"RunHarness", func(r *Run, g *G, a []Value) (Value, action) {
